@@ -662,7 +662,19 @@ def record_case(data, font_number, pf, req, optd, rng, kind, label, nprobe=40, n
         imap = [-1] * n
         for old, new in s.glyph_index_map.items():
             imap[old] = new
-        res = TTFont(io.BytesIO(out))
+        tag = "sfnt"
+        try:  # the saved result must be a font the library itself can read back completely
+            res = TTFont(io.BytesIO(out))
+            for tag in res.keys():
+                res[tag]
+            if "glyf" in res:
+                for g in res.getGlyphOrder():
+                    res["glyf"][g]
+            for tag in ("GSUB", "GPOS", "GDEF"):
+                if tag in res:
+                    _ot_glyph_names(res[tag].table, set(), set())
+        except Exception as e:
+            return dict(head, unreadable="%s in %s: %s" % (type(e).__name__, tag, str(e)[:160])), skips
         nres = len(res.getGlyphOrder())
         refs = table_refs(res)
         rcmap = set()
@@ -1093,7 +1105,7 @@ def run(chk):
         ctx = any(lk["ty"] == "ctx" for lk in c["font"]["L"]["gsub"]["lookups"])
         return 0 if (c.get("w", 0) > 0 and ctx) else 1 if c.get("w", 0) > 0 else 2
 
-    quota = [len(gens)] * 3 if thorough else [1800, 900, 900]
+    quota = [10000, 5000, 5000] if thorough else [1800, 900, 900]
     if os.environ.get("VERIF_C07_NR"):  # development aid
         quota = [int(os.environ["VERIF_C07_NR"]) // 3] * 3
     idxs = []
